@@ -308,7 +308,7 @@ Lemma hp_all f :
   (forall s sid s' r, HP s -> recur_loop tk f s sid = (s', r) -> HP s').
 Proof.
   destruct (frame_all tk f) as (Fst & Frs & Fsd & Fcl & Fco & Fli & Feo & Fel & Fef & Frp & Frl).
-  repeat split; intros.
+  repeat match goal with |- _ /\ _ => split end; intros.
   - apply (hp_steps s s'); [eauto using st_refl| |eassumption].
     intros x Px. destruct (prot_more tk f x) as (K & _). eapply K; eassumption.
   - match goal with Hh : HP _ |- _ => destruct Hh as [P D] end. split.
@@ -370,7 +370,7 @@ Lemma pj_irrel a s C E y c' :
   PJ' a s C -> PJ' a (set_sched s y c') C.
 Proof.
   intros Hh Hc R Np Ny. apply pj_sched. intro Hg. unfold hang in *.
-  eapply hang_irrel; [| | | |exact Hg].
+  apply (hang_irrel (dq s) _ Pr Lf C y); [| | | |exact Hg].
   - intros z Hz. now apply dq_set_other.
   - exact Np.
   - unfold Lf. congruence.
@@ -403,6 +403,338 @@ Proof.
   intros P. destruct (N.eq_dec i j) as [Heq|Hne].
   - subst i. destruct (pj_enter j Pr Lf a s C (GRun 0) (proj1 P)) as [P1 E1]. split; [exact P1|intros _; exact E1].
   - split; [|congruence]. apply pj_emit; [discriminate|]. now apply pj_gen_other.
+Qed.
+
+Lemma pj_drop_undefined a s C i : get (defs s) i = None -> HP s -> PJ' a s (i :: C) -> PJ' a s C.
+Proof.
+  intros D [_ Dd] [N Dj']. split; [exact N|]. destruct Dj' as [E|[St|[R|Hg]]]; [now left|right; now left|right; right; now left|].
+  assert (Li : Lf i) by (unfold Lf, isnest; rewrite <- Dd, D; reflexivity).
+  destruct (hang_split_hand _ _ _ _ _ _ Hg) as [Heq|Hg'].
+  - subst i. rewrite Dd in D. contradiction.
+  - right; right; right. now apply (hang_leaf_roots _ _ _ _ i).
+Qed.
+
+Lemma in_rdeeds (rd : list id) (ds : list (deed T)) k :
+  In k (dids ds) -> memN k rd = true -> In k (dids (rev (filter (is_rem rd) (unrotate ds)))).
+Proof.
+  intros Hk M. apply dids_rev_in. apply dids_in in Hk. destruct Hk as [re Hd]. apply dids_in. exists re.
+  apply filter_In. split; [apply unrotate_in; [discriminate|exact Hd]|exact M].
+Qed.
+
+Definition shel_at (f : nat) : Prop :=
+  (forall a s X C i s' r, HP s -> Hold2 s X -> incl C X -> PJ' a s C ->
+       gen_start tk f s i = (s', r) -> oof s' = false -> PJ' a s' C) /\
+  (forall a s X C i k sc pc s' r, HP s -> Hold2 s X -> incl C X -> ~ Pr i -> (i = j -> entj j a s) -> PJ' a s C ->
+       run_step tk f s i k sc pc = (s', r) -> oof s' = false -> PJ' a s' C) /\
+  (forall a s X C i s' r, HP s -> Hold2 s (i :: X) -> incl C X -> PJ' a s C ->
+       gen_send tk f s i = (s', r) -> oof s' = false -> PJ' a s' C) /\
+  (forall a s X C i, HP s -> Hold2 s (i :: X) -> incl C X -> PJ' a s (i :: C) ->
+       oof (gen_close tk f s i) = false -> PJ' a (gen_close tk f s i) C) /\
+  (forall a s X C sid, HP s -> Hold2 s X -> incl C X -> running s sid -> ~ Pr sid -> isnest d sid = true ->
+       PJ' a s (qids s sid ++ C) -> oof (close_own tk f s sid) = false -> PJ' a (close_own tk f s sid) C) /\
+  (forall a s X C (ds : list (deed T)), HP s -> Hold2 s (dids ds ++ X) -> incl C X -> PJ' a s (dids ds ++ C) ->
+       oof (close_list tk f s ds) = false -> PJ' a (close_list tk f s ds) C) /\
+  (forall a s X C sid ids s' r, HP s -> Hold2 s X -> incl C X -> running s sid -> ~ Pr sid -> isnest d sid = true ->
+       PJ' a s C -> enter_own tk f s sid ids = (s', r) -> oof s' = false -> PJ' a s' C) /\
+  (forall a s X C ids (acc : list (deed T)) s' r acc', HP s -> Hold2 s (dids acc ++ X) -> incl C X -> PJ' a s C ->
+       enter_local tk f s ids acc = (s', r, acc') -> oof s' = false -> PJ' a s' C) /\
+  (forall a s X C c es s' r, HP s -> Hold2 s X -> incl C X -> PJ' a s C ->
+       run_effects tk f s c es = (s', r) -> oof s' = false -> PJ' a s' C) /\
+  (forall a s X C sid s' r, HP s -> Hold2 s X -> incl C X -> running s sid -> ~ Pr sid -> isnest d sid = true ->
+       PJ' a s C -> recur_pass tk f s sid = (s', r) -> oof s' = false -> PJ' a s' C) /\
+  (forall a s X C sid s' r, HP s -> Hold2 s X -> incl C X -> running s sid -> ~ Pr sid -> isnest d sid = true ->
+       PJ' a s C -> recur_loop tk f s sid = (s', r) -> oof s' = false -> PJ' a s' C).
+
+Lemma isnest_of s i t0 al kids : HP s -> get (defs s) i = Some (FNest t0 al kids) -> isnest d i = true.
+Proof. intros [_ D] G. unfold isnest. rewrite <- D, G. reflexivity. Qed.
+Lemma lf_of_leaf s i k sc : HP s -> get (defs s) i = Some (FLeaf k sc) -> Lf i.
+Proof. intros [_ D] G. unfold Lf, isnest. rewrite <- D, G. reflexivity. Qed.
+
+Lemma incl_cons_r (C X : list id) i : incl C X -> incl C (i :: X).
+Proof. intros Hc k Hk. right. now apply Hc. Qed.
+Lemma incl_app_r (C X L : list id) : incl C X -> incl C (L ++ X).
+Proof. intros Hc k Hk. apply in_or_app. right. now apply Hc. Qed.
+Lemma incl_app_both (C X L : list id) : incl C X -> incl (L ++ C) (L ++ X).
+Proof. intros Hc k Hk. apply in_app_or in Hk. apply in_or_app. destruct Hk; [now left|right; now apply Hc]. Qed.
+
+Lemma shelter_all : forall f, shel_at f.
+Proof.
+  induction f as [|f IH].
+  - unfold shel_at. repeat match goal with |- _ /\ _ => split end; intros;
+      try match goal with E : _ = (_, _) |- _ => cbn in E; inversion E; subst; clear E end;
+      try match goal with E : _ = (_, _, _) |- _ => cbn in E; inversion E; subst; clear E end;
+      match goal with O : oof _ = false |- _ => cbn in O; discriminate end.
+  - destruct IH as (Ist & Irs & Isd & Icl & Ico & Ili & Ieo & Iel & Ief & Irp & Irl).
+    destruct (hp_all f) as (Pst & Prs & Psd & Pcl & Pco & Pli & Peo & Pel & Pef & Prp & Prl).
+    destruct (hold2_all tk f) as (Hst & Hrs & Hsd & Hcl & Hco & Hli & Heo & Hel & Hef & Hrp & Hrl).
+    destruct (ob_all tk f) as (Brs & Bsd & Bcl & Bco & Bli & Bef & Brp & Brl).
+    destruct (frame_all tk f) as (Fst & Frs & Fsd & Fcl & Fco & Fli & Feo & Fel & Fef & Frp & Frl).
+    (* the ending of a DoDoer's generator *)
+    assert (NestEnd : forall a s3 X C i, HP s3 -> Hold2 s3 X -> incl C X -> running s3 i -> ~ Pr i -> isnest d i = true ->
+              PJ' a s3 (qids s3 i ++ C) -> oof (set_gen (emit (close_own tk f s3 i) Exit i) i GDone) = false ->
+              PJ' a (set_gen (emit (close_own tk f s3 i) Exit i) i GDone) C).
+    { intros a s3 X C i P3 H3 Hc R3 Np Ni J3 O. change (oof (close_own tk f s3 i) = false) in O.
+      apply pj_gen; [intros _ pc Hx; discriminate|]. apply pj_emit; [discriminate|].
+      eapply (Ico a s3 X C i); eassumption. }
+    assert (Wide : forall a s3 C i, PJ' a s3 C -> PJ' a s3 (qids s3 i ++ C)).
+    { intros a s3 C i J3. eapply pj_incl; [|exact J3]. intros k Hk. apply in_or_app. now right. }
+    unfold shel_at. repeat match goal with |- _ /\ _ => split end.
+    + (* gen_start *)
+      intros a s X C i s' r P Hh Hc J E O. rewrite gen_start_S in E.
+      destruct (startable s i) eqn:St; cbn [negb] in E; [|fin; exact J].
+      destruct (get (defs s) i) as [[k sc|t0 al kids]|] eqn:D; [| |fin; exact J].
+      * assert (Np : ~ Pr i) by (eapply np_start; [exact P|exact St|congruence]).
+        destruct (pj_start a s C i J) as [J1 E1].
+        eapply (Irs a _ X C); [| | | | | |exact E|exact O]; [|apply hold2_emit; now apply g2_start|exact Hc|exact Np|exact E1|exact J1].
+        apply (hp_same (set_gen s i (GRun 0))); [reflexivity|reflexivity|now apply hp_gen].
+      * assert (Np : ~ Pr i) by (eapply np_start; [exact P|exact St|congruence]).
+        assert (Ni : isnest d i = true) by (eapply isnest_of; eassumption).
+        cbv zeta in E. destruct (pj_start a s C i J) as [J1 E1].
+        set (s1 := emit (set_gen s i (GRun 0)) Enter i) in *.
+        assert (P1 : HP s1) by (apply (hp_same (set_gen s i (GRun 0))); [reflexivity|reflexivity|now apply hp_gen]).
+        assert (H1 : Hold2 s1 X) by (apply hold2_emit; now apply g2_start).
+        assert (R1 : running s1 i) by (exists 0%nat; apply gen_set_gen_same).
+        destruct (enter_own tk f s1 i _) as [s2 r0] eqn:Ee.
+        assert (O2 : oof s2 = false).
+        { destruct r0; fin; try exact O. apply Bco in O. destruct kbd; exact O. }
+        assert (J2 : PJ' a s2 C) by (eapply (Ieo a s1 X C i); eassumption).
+        assert (H2 : Hold2 s2 X) by (destruct (Heo s1 X i _ s2 r0 (or_intror H1) Ee) as [Ob|Hx]; [congruence|exact Hx]).
+        assert (P2 : HP s2) by (eapply Peo; eassumption).
+        assert (R2 : running s2 i) by (destruct (keep_all tk f i) as (_ & _ & _ & K & _); eapply K; eassumption).
+        assert (E2 : i = j -> entj j a s2).
+        { intro Heq. eapply entj_mono; [exact (E1 Heq)|]. apply steps_trace. eapply Feo; [apply st_refl|exact Ee]. }
+        destruct r0; fin; try exact J2.
+        -- apply pj_gen; [intros Heq pc Hx; exact (E2 Heq)|exact J2].
+        -- apply pj_gen; [intros Heq pc Hx; exact (E2 Heq)|exact J2].
+        -- apply (NestEnd a _ X C i); try assumption.
+           ++ destruct kbd; [exact P2|apply (hp_same s2); [reflexivity|reflexivity|exact P2]].
+           ++ destruct kbd; [exact H2|apply hold2_emit; exact H2].
+           ++ destruct kbd; exact R2.
+           ++ apply Wide. destruct kbd; [exact J2|apply pj_emit; [discriminate|exact J2]].
+    + (* run_step *)
+      intros a s X C i k sc pc s' r P Hh Hc Np Ej J E O. rewrite run_step_S in E. cbv zeta in E.
+      destruct (run_effects tk f s i _) as [s1 r0] eqn:Ee.
+      assert (O1 : oof s1 = false).
+      { destruct r0; [| |destruct kbd|]; cbv beta iota zeta in E; try (destruct (f_out _)); fin; exact O. }
+      assert (J1 : PJ' a s1 C) by (eapply (Ief a s X C); eassumption).
+      assert (E1 : i = j -> entj j a s1).
+      { intro Heq. eapply entj_mono; [exact (Ej Heq)|]. apply steps_trace. eapply Fef; [apply st_refl|exact Ee]. }
+      destruct r0; [| |destruct kbd|]; cbv beta iota zeta in E; try (destruct (f_out _)); fin; try exact J1;
+        repeat first [exact J1 | apply pj_done | (apply pj_emit; [discriminate|])
+                     | (apply pj_gen; [intros Heq pc0 Hx; try discriminate; exact (E1 Heq)|])].
+    + (* gen_send *)
+      intros a s X C i s' r P Hh Hc J E O. rewrite gen_send_S in E.
+      destruct (susp_of_head s i X Hh) as [pc G]. rewrite G in E.
+      destruct (get (defs s) i) as [[k sc|t0 al kids]|] eqn:D; [| |fin; exact J].
+      * assert (Np : ~ Pr i) by (eapply np_susp; [exact P|exact G|congruence]).
+        destruct (pj_recur a s C X i pc Hh Hc G J) as [J1 E1].
+        eapply (Irs a _ X C); [| | | | | |exact E|exact O]; [|apply hold2_emit; now apply g2_resume|exact Hc|exact Np|exact E1|exact J1].
+        apply (hp_same (set_gen s i (GRun pc))); [reflexivity|reflexivity|now apply hp_gen].
+      * assert (Np : ~ Pr i) by (eapply np_susp; [exact P|exact G|congruence]).
+        assert (Ni : isnest d i = true) by (eapply isnest_of; eassumption).
+        cbv zeta in E. destruct (pj_recur a s C X i pc Hh Hc G J) as [J1 E1].
+        set (s1 := emit (set_gen s i (GRun pc)) Recur i) in *.
+        assert (P1 : HP s1) by (apply (hp_same (set_gen s i (GRun pc))); [reflexivity|reflexivity|now apply hp_gen]).
+        assert (H1 : Hold2 s1 X) by (apply hold2_emit; now apply g2_resume).
+        assert (R1 : running s1 i) by (exists pc; apply gen_set_gen_same).
+        destruct (recur_pass tk f s1 i) as [s2 r0] eqn:Ee.
+        assert (O2 : oof s2 = false).
+        { destruct r0; cbv beta iota zeta in E;
+            try (match type of E with (if ?c then _ else _) = _ => destruct c end); fin; try exact O;
+            try (apply Bco in O; exact O). apply Bco in O. destruct kbd; exact O. }
+        assert (J2 : PJ' a s2 C) by (eapply (Irp a s1 X C i); eassumption).
+        assert (H2 : Hold2 s2 X) by (destruct (Hrp s1 X i s2 r0 (or_intror H1) Ee) as [Ob|Hx]; [congruence|exact Hx]).
+        assert (P2 : HP s2) by (eapply Prp; eassumption).
+        assert (R2 : running s2 i) by (destruct (keep_all tk f i) as (_ & _ & _ & _ & _ & _ & K); eapply K; eassumption).
+        assert (E2 : i = j -> entj j a s2).
+        { intro Heq. eapply entj_mono; [exact (E1 Heq)|]. apply steps_trace. eapply Frp; [apply st_refl|exact Ee]. }
+        destruct r0; cbv beta iota zeta in E.
+        -- match type of E with (if ?c then _ else _) = _ => destruct c end; fin.
+           ++ apply (NestEnd a _ X C i); try assumption; try (apply (hp_same s2); [reflexivity|reflexivity|exact P2]).
+              apply Wide; apply pj_emit; [discriminate|apply pj_done; exact J2].
+           ++ apply pj_gen; [intros Heq pc0 Hx; exact (E2 Heq)|apply pj_done; exact J2].
+        -- match type of E with (if ?c then _ else _) = _ => destruct c end; fin.
+           ++ apply (NestEnd a _ X C i); try assumption; try (apply (hp_same s2); [reflexivity|reflexivity|exact P2]).
+              apply Wide; apply pj_emit; [discriminate|apply pj_done; exact J2].
+           ++ apply pj_gen; [intros Heq pc0 Hx; exact (E2 Heq)|apply pj_done; exact J2].
+        -- fin. apply (NestEnd a _ X C i); try assumption.
+           ++ destruct kbd; [exact P2|apply (hp_same s2); [reflexivity|reflexivity|exact P2]].
+           ++ destruct kbd; [exact H2|apply hold2_emit; exact H2].
+           ++ destruct kbd; exact R2.
+           ++ apply Wide. destruct kbd; [exact J2|apply pj_emit; [discriminate|exact J2]].
+        -- fin. exact J2.
+    + (* gen_close *)
+      intros a s X C i P Hh Hc J O. rewrite gen_close_S in *.
+      destruct (susp_of_head s i X Hh) as [pc G]. rewrite G in *.
+      destruct (get (defs s) i) as [[k sc|t0 al kids]|] eqn:D.
+      * (* leaf: whatever is in its deque is never processed *)
+        apply pj_gen; [intros _ pc0 Hx; discriminate|]. apply pj_emit; [discriminate|]. apply pj_emit; [discriminate|].
+        apply (pj_leaf_roots a _ C i); [eapply lf_of_leaf; eassumption|]. exact (pj_hand_run a s C i pc J).
+      * cbv zeta in *.
+        assert (Np : ~ Pr i) by (eapply np_susp; [exact P|exact G|congruence]).
+        apply (NestEnd a _ X C i); try assumption.
+        -- apply (hp_same (set_gen s i (GRun pc))); [reflexivity|reflexivity|now apply hp_gen].
+        -- apply hold2_emit. now apply g2_resume.
+        -- exists pc. apply gen_set_gen_same.
+        -- eapply isnest_of; eassumption.
+        -- (* roots: the members of its deque *)
+           apply pj_emit; [discriminate|]. exact (pj_hand_run a s C i pc J).
+      * (* undefined id: cannot be j; whatever hangs from it is never processed *)
+        eapply pj_drop_undefined; eassumption.
+    + (* close_own *)
+      intros a s X C sid P Hh Hc R Np Ni J O. rewrite close_own_S in *. cbv zeta in *.
+      apply (Ili a _ X C); [| |exact Hc| |exact O].
+      * apply (hp_same s); [reflexivity|reflexivity|exact P].
+      * apply hold2_clear. exact Hh.
+      * eapply pj_incl; [|eapply (pj_irrel_deeds a s (qids s sid ++ C) X sid []); [exact Hh| |exact R|exact Np|exact Ni|exact J]].
+        -- intros k Hk. apply in_app_or in Hk. apply in_or_app. destruct Hk as [Hk|Hk]; [left|now right].
+           apply dids_rev_in, dids_unrotate_in. exact Hk.
+        -- intros k Hk. apply in_app_or in Hk. destruct Hk as [Hk|Hk].
+           ++ apply (h2_susp _ _ _ Hh). right. now exists sid.
+           ++ eapply susp_of_incl; eassumption.
+    + (* close_list *)
+      intros a s X C ds P Hh Hc J O. rewrite close_list_S in *. destruct ds as [|[|i re] r].
+      * exact J.
+      * eapply (Ili a s X C r); eassumption.
+      * assert (O1 : oof (gen_close tk f s i) = false) by (eapply Bli; exact O).
+        apply (Ili a _ X C r); [now apply Pcl| |exact Hc| |exact O].
+        -- destruct (Hcl s (dids r ++ X) i (or_intror Hh)) as [Ob|Hx]; [congruence|exact Hx].
+        -- apply (Icl a s (dids r ++ X) (dids r ++ C) i); [exact P|exact Hh|now apply incl_app_both|exact J|exact O1].
+    + (* enter_own *)
+      intros a s X C sid ids s' r P Hh Hc R Np Ni J E O. rewrite enter_own_S in E.
+      destruct ids as [|i rest]; [fin; exact J|]. cbv zeta in E.
+      set (s0 := set_done s i (Some false)) in *.
+      destruct (gen_start tk f s0 i) as [s1 r0] eqn:Eg.
+      assert (O1 : oof s1 = false).
+      { destruct r0; fin; try exact O; exact (oof_back_steps _ _ (Feo _ _ _ _ _ _ (st_refl _) E) O). }
+      assert (P0 : HP s0) by (apply (hp_same s); [reflexivity|reflexivity|exact P]).
+      assert (J1 : PJ' a s1 C) by (eapply (Ist a s0 X C i); [exact P0|exact Hh|exact Hc|apply pj_done; exact J|exact Eg|exact O1]).
+      assert (H1 : Hold2 s1 (eout r0 i X)) by (destruct (Hst s0 X i s1 r0 (or_intror Hh) Eg) as [Ob|Hx]; [congruence|exact Hx]).
+      assert (P1 : HP s1) by (eapply Pst; eassumption).
+      assert (R1 : running s1 sid) by (destruct (keep_all tk f sid) as (K & _); eapply K; [|exact Eg]; exact R).
+      destruct r0; fin; try exact J1.
+      * cbn [eout] in H1. eapply (Ieo a _ X C sid); [| |exact Hc| |exact Np|exact Ni| |exact E|exact O].
+        -- apply (hp_same s1); [reflexivity|reflexivity|exact P1].
+        -- apply (hold2_append s1 sid [DDeed i (tyme s1)] X). exact H1.
+        -- exact R1.
+        -- eapply (pj_irrel_deeds a s1 C (i :: X)); [exact H1| |exact R1|exact Np|exact Ni|exact J1].
+           eapply susp_of_incl; [exact H1|now apply incl_cons_r].
+      * eapply (Ieo a s1 X C sid); eassumption.
+    + (* enter_local *)
+      intros a s X C ids acc s' r acc' P Hh Hc J E O. rewrite enter_local_S in E.
+      destruct ids as [|i rest]; [fin; exact J|]. cbv zeta in E.
+      set (s0 := set_done s i (Some false)) in *.
+      destruct (gen_start tk f s0 i) as [s1 r0] eqn:Eg.
+      assert (O1 : oof s1 = false).
+      { destruct r0; fin; try exact O.
+        - exact (oof_back_steps _ _ (Fel _ _ _ _ _ _ _ (st_refl _) E) O).
+        - exact (oof_back_steps _ _ (Fel _ _ _ _ _ _ _ (st_refl _) E) O).
+        - eapply Bli; exact O. }
+      assert (P0 : HP s0) by (apply (hp_same s); [reflexivity|reflexivity|exact P]).
+      assert (J1 : PJ' a s1 C).
+      { eapply (Ist a s0 (dids acc ++ X) C i); [exact P0|exact Hh|now apply incl_app_r|apply pj_done; exact J|exact Eg|exact O1]. }
+      assert (H1 : Hold2 s1 (eout r0 i (dids acc ++ X))).
+      { destruct (Hst s0 (dids acc ++ X) i s1 r0 (or_intror Hh) Eg) as [Ob|Hx]; [congruence|exact Hx]. }
+      assert (P1 : HP s1) by (eapply Pst; eassumption).
+      destruct r0; fin; try exact J1.
+      * eapply (Iel a s1 X C); [exact P1| |exact Hc|exact J1|exact E|exact O].
+        eapply hold2_perm; [|exact H1]. intro x. cbn [eout]. rewrite dids_app, !cnt_app, cnt_cons, cnt_app. cbn.
+        destruct (N.eq_dec i x); lia.
+      * eapply (Iel a s1 X C); eassumption.
+      * apply (Ili a s1 X C (rev acc)); [exact P1| |exact Hc| |exact O].
+        -- eapply hold2_perm; [|exact H1]. intro x. cbn [eout]. rewrite !cnt_app, cnt_dids_rev. lia.
+        -- eapply pj_incl; [|exact J1]. intros k Hk. apply in_or_app. now right.
+    + (* run_effects *)
+      intros a s X C c es s' r P Hh Hc J E O. rewrite run_effects_S in E.
+      destruct es as [|e rest]; [fin; exact J|].
+      destruct (negb (live s match e with EExtend t _ => t | ERemove t _ => t end));
+        [eapply (Ief a s X C); eassumption|].
+      destruct e as [t news|t who]; cbv zeta in E.
+      * destruct (enter_local tk f s _ []) as [[s1 r0] acc] eqn:Ee.
+        assert (O1 : oof s1 = false).
+        { destruct r0; fin; try exact O; exact (Bef _ _ _ _ _ E O). }
+        assert (J1 : PJ' a s1 C) by (eapply (Iel a s X C _ []); [exact P|exact Hh|exact Hc|exact J|exact Ee|exact O1]).
+        assert (H1 : Hold2 s1 (lout r0 acc X)).
+        { pose proof (fun h => Hel s X _ [] s1 r0 acc h Ee) as K. destruct (K (or_intror Hh)) as [Ob|Hx]; [congruence|exact Hx]. }
+        assert (P1 : HP s1) by (eapply Pel; eassumption).
+        assert (Push : forall dl, Hold2 s1 (dids acc ++ X) ->
+                  HP (emit (set_sched s1 t {| doers := dl; deeds := deeds (get_sched s1 t) ++ acc |}) ExtRet c) /\
+                  Hold2 (emit (set_sched s1 t {| doers := dl; deeds := deeds (get_sched s1 t) ++ acc |}) ExtRet c) X /\
+                  PJ' a (emit (set_sched s1 t {| doers := dl; deeds := deeds (get_sched s1 t) ++ acc |}) ExtRet c) C).
+        { intros dl Hx. split; [apply (hp_same s1); [reflexivity|reflexivity|exact P1]|]. split.
+          - apply hold2_emit. revert Hx. apply hold2_sched. intro x. cbn [deeds]. rewrite dids_app, !cnt_app. unfold qids, dq. lia.
+          - apply pj_emit; [discriminate|]. revert J1. apply pj_sched. unfold hang.
+            apply (hang_grow (dq s1) _ Pr Lf C t acc).
+            + intros z Hz. now apply dq_set_other.
+            + now rewrite dq_set_same. }
+        destruct r0; fin; try exact J1.
+        -- match type of E with run_effects tk f (emit (set_sched s1 t {| doers := ?dl; deeds := _ |}) ExtRet c) c rest = _ =>
+             destruct (Push dl H1) as (Px & Hx & Jx) end. eapply (Ief a _ X C); [exact Px|exact Hx|exact Hc|exact Jx|exact E|exact O].
+        -- match type of E with run_effects tk f (emit (set_sched s1 t {| doers := ?dl; deeds := _ |}) ExtRet c) c rest = _ =>
+             destruct (Push dl H1) as (Px & Hx & Jx) end. eapply (Ief a _ X C); [exact Px|exact Hx|exact Hc|exact Jx|exact E|exact O].
+      * match type of E with run_effects tk f (emit (close_list tk f ?s1 ?l) RemRet c) c rest = _ =>
+          set (sr := s1) in *; set (lr := l) in * end.
+        assert (O2 : oof (close_list tk f sr lr) = false) by exact (Bef _ _ _ _ _ E O).
+        set (rd := dedupe (filter (fun d0 => memN d0 (doers (get_sched s t))) who) []) in *.
+        assert (Pr1 : HP sr) by (apply (hp_same s); [reflexivity|reflexivity|exact P]).
+        assert (Hr1 : Hold2 sr (dids lr ++ X)) by (apply (hold2_remove s t X (is_rem rd)); exact Hh).
+        assert (Jr1 : PJ' a sr (dids lr ++ C)).
+        { revert J. apply pj_sched. unfold hang.
+          apply (hang_filter (dq s) _ Pr Lf C (dids lr ++ C) t (fun k => negb (memN k rd))).
+          - intros z Hz. now apply dq_set_other.
+          - rewrite dq_set_same. cbn [deeds]. apply filter_ext. intros [|i re]; reflexivity.
+          - intros k Hk. apply in_or_app. now right.
+          - intros k Hk Qk. apply in_or_app. left. apply negb_false_iff in Qk. now apply in_rdeeds. }
+        assert (J2 : PJ' a (close_list tk f sr lr) C) by (apply (Ili a sr X C lr); assumption).
+        assert (H2 : Hold2 (close_list tk f sr lr) X).
+        { destruct (Hli sr X lr (or_intror Hr1)) as [Ob|Hx]; [congruence|exact Hx]. }
+        eapply (Ief a _ X C); [| |exact Hc| |exact E|exact O].
+        -- apply (hp_same (close_list tk f sr lr)); [reflexivity|reflexivity|now apply Pli].
+        -- apply hold2_emit. exact H2.
+        -- apply pj_emit; [discriminate|exact J2].
+    + (* recur_pass *)
+      intros a s X C sid s' r P Hh Hc R Np Ni J E O. rewrite recur_pass_S in E. cbv zeta in E.
+      eapply (Irl a _ X C sid); [| |exact Hc| |exact Np|exact Ni| |exact E|exact O].
+      * apply (hp_same s); [reflexivity|reflexivity|exact P].
+      * apply (hold2_append s sid [DMark] X). exact Hh.
+      * exact R.
+      * eapply (pj_irrel_deeds a s C X); [exact Hh|eapply susp_of_incl; eassumption|exact R|exact Np|exact Ni|exact J].
+    + (* recur_loop *)
+      intros a s X C sid s' r P Hh Hc R Np Ni J E O. rewrite recur_loop_S in E.
+      destruct (deeds (get_sched s sid)) as [|[|i re] rest] eqn:Q; [fin; exact J| |].
+      * fin. eapply (pj_irrel_deeds a s C X); [exact Hh|eapply susp_of_incl; eassumption|exact R|exact Np|exact Ni|exact J].
+      * cbv zeta in E.
+        set (s1 := set_deeds s sid rest) in *.
+        assert (H1 : Hold2 s1 (i :: X)) by exact (hold2_pop s sid (DDeed i re) rest X Q Hh).
+        assert (P1 : HP s1) by (apply (hp_same s); [reflexivity|reflexivity|exact P]).
+        assert (R1 : running s1 sid) by exact R.
+        assert (J1 : PJ' a s1 C).
+        { eapply (pj_irrel_deeds a s C X); [exact Hh|eapply susp_of_incl; eassumption|exact R|exact Np|exact Ni|exact J]. }
+        assert (Sc : forall k, In k C -> is_susp s1 k) by (eapply susp_of_incl; [exact H1|now apply incl_cons_r]).
+        destruct (tleb re (tyme s1)).
+        -- destruct (gen_send tk f s1 i) as [s2 g] eqn:Eg.
+           assert (O2 : oof s2 = false) by (destruct g; fin; try exact O; exact (Brl _ _ _ _ E O)).
+           assert (J2 : PJ' a s2 C) by (eapply (Isd a s1 X C i); eassumption).
+           assert (H2 : Hold2 s2 (eout g i X)) by (destruct (Hsd s1 X i s2 g (or_intror H1) Eg) as [Ob|Hx]; [congruence|exact Hx]).
+           assert (P2 : HP s2) by (eapply Psd; eassumption).
+           assert (R2 : running s2 sid) by (destruct (keep_all tk f sid) as (_ & K & _); eapply K; [|exact Eg]; exact R1).
+           destruct g; fin; try exact J2.
+           ++ cbn [eout] in H2.
+              match type of E with recur_loop tk f (set_deeds s2 sid (_ ++ [?dd])) sid = _ =>
+                eapply (Irl a (set_deeds s2 sid (dq s2 sid ++ [dd])) X C sid); [| |exact Hc| |exact Np|exact Ni| |exact E|exact O];
+                [apply (hp_same s2); [reflexivity|reflexivity|exact P2]
+                |apply (hold2_append s2 sid [dd] X); exact H2
+                |exact R2
+                |eapply (pj_irrel_deeds a s2 C (i :: X)); [exact H2| |exact R2|exact Np|exact Ni|exact J2];
+                 eapply susp_of_incl; [exact H2|now apply incl_cons_r]]
+              end.
+           ++ eapply (Irl a s2 X C sid); eassumption.
+        -- eapply (Irl a _ X C sid); [| |exact Hc| |exact Np|exact Ni| |exact E|exact O].
+           ++ apply (hp_same s1); [reflexivity|reflexivity|exact P1].
+           ++ unfold set_deeds at 1. revert H1. apply hold2_sched. intro x. cbn [deeds].
+              unfold qids. unfold s1. rewrite dq_deeds_same. rewrite dids_app, cnt_app, cnt_cons. cbn. destruct (N.eq_dec i x); lia.
+           ++ exact R1.
+           ++ eapply (pj_irrel_deeds a s1 C (i :: X)); [exact H1|exact Sc|exact R1|exact Np|exact Ni|exact J1].
 Qed.
 
 End ShelterAll.
